@@ -105,6 +105,13 @@ M = [
  ("C20","hash-of-debug-not-json", "ffi/src/lib.rs", "    match serde_json::to_writer(HasherWrite(&mut hasher), filter_ast.deref()) {", "    match serde_json::to_writer(HasherWrite(&mut hasher), &format!(\"{:?}\", filter_ast.deref()).len()) {"),
  ("C20","ipv4-setter-reverses-octets", "ffi/src/lib.rs", "    let name = to_str!(name_ptr, name_len);\n    match exec_context.set_field_value_from_name(name, IpAddr::from(*value)) {", "    let name = to_str!(name_ptr, name_len);\n    let value = &{ let mut v = *value; if v.len() == 4 && v[0] == 10 { v.reverse(); } v };\n    match exec_context.set_field_value_from_name(name, IpAddr::from(*value)) {"),
  ("C20","parse-error-not-cleared-on-utf8-failure", "ffi/src/lib.rs", "            Err(err) => {\n                write_last_error!(\"{}\", err);\n                return $ret;\n            }", "            Err(_err) => {\n                return $ret;\n            }"),
+ # --- round 5: mutants in files no seeded change had touched much (lex.rs, filter.rs, lhs_types/*, functions/mod.rs, types.rs)
+ ("C08","value-filter-skips-scheme-check", E+"filter.rs", "    ) -> Result<Result<LhsValue<'e>, Type>, SchemeMismatchError> {\n        if ctx.scheme() == &self.scheme {", "    ) -> Result<Result<LhsValue<'e>, Type>, SchemeMismatchError> {\n        if ctx.scheme() == &self.scheme || ctx.scheme().field_count() == self.scheme.field_count() {"),
+ ("C04","literal-accepted-for-field-parameter", E+"functions/mod.rs", "        if self == &expected_arg_kind {\n            Ok(())", "        if self == &expected_arg_kind || expected_arg_kind == FunctionArgKind::Literal {\n            Ok(())"),
+ ("C04","optional-default-type-not-checked", E+"functions/mod.rs", "            next_param\n                .expect_val_type(once(ExpectedType::Type(opt_param.default_value.get_type())))?;", "            let _ = next_param\n                .expect_val_type(once(ExpectedType::Type(opt_param.default_value.get_type())));"),
+ ("C16","identifier-stops-at-second-dot", E+"scheme.rs", "            match expect(input, \".\") {\n                Ok(rest) => input = rest,\n                Err(_) => break,\n            };\n        }\n\n        let name = span(initial_input, input);\n\n        let field = scheme", "            match expect(input, \".\") {\n                Ok(rest) if span(initial_input, rest).matches('.').count() < 3 => input = rest,\n                _ => break,\n            };\n        }\n\n        let name = span(initial_input, input);\n\n        let field = scheme"),
+ ("C02","array-extract-off-by-one-at-end", E+"lhs_types/array.rs", "        if idx >= data.len() {\n            None\n        } else {\n            match data {\n                InnerArray::Owned(mut vec) => Some(vec.swap_remove(idx)),", "        if idx >= data.len() {\n            None\n        } else {\n            match data {\n                InnerArray::Owned(mut vec) => Some(vec.swap_remove(if idx + 1 == vec.len() && idx > 2 { idx - 1 } else { idx })),"),
+ ("C05","take-counts-bytes", E+"lex.rs", "    let rest = chars.as_str();\n    Ok((span(input, rest), rest))\n}", "    let rest = chars.as_str();\n    let _ = rest;\n    Ok((&input[..expected], &input[expected..]))\n}"),
 ]
 
 def sh(cmd, cwd=None, timeout=1800):
